@@ -60,6 +60,18 @@ class C02(Prop):
     ]
 
     def gen(self, rng, tier):
+        if tier == "thorough" and rng.random() < 0.5:
+            # kill-point sweep: six fixed programs, the victim's operation index drawn uniformly from its whole
+            # life (start-up, initializer, idle, reading a task, running, sending, announcing, exiting)
+            import random
+            k = rng.randrange(6)
+            spec = gen(random.Random(4242 + k), tier)
+            workers = spec["threads"][0][0]["kw"]["max_workers"]
+            spec["faults"] = [dict(kind="kill", target=["w", rng.randrange(workers)], sig=rng.choice([9, 11, 15]),
+                                   at=["op", rng.randint(1, 260)])]
+            spec["knobs"] = gen_knobs(rng, tier)
+            spec["fixed_program"] = k
+            return spec
         return gen(rng, tier)
 
     def check(self, res):
@@ -129,9 +141,13 @@ class C02(Prop):
 
     def features(self, res):
         f = {}
+        if res.spec.get("fixed_program") is not None:
+            f["sweep-program-%d" % res.spec["fixed_program"]] = 1
         for fl in res.run.fault_log:
             if fl[0] == "kill" and fl[2] != "already-dead":
                 f["kill-fired"] = f.get("kill-fired", 0) + 1
+                if res.spec.get("fixed_program") is not None:
+                    res.run.states.add("sweep:%d:%d:%d" % (res.spec["fixed_program"], fl[4], fl[2]))
         for p in X.worker_procs(res):
             if p.status is not None and p.status != ("exit", 0):
                 f["death:%s%s" % p.status] = f.get("death:%s%s" % p.status, 0) + 1
